@@ -116,9 +116,13 @@ SkewV(A, V) == \A i, j \in I3 : LET f(k) == PAdd(PScale(A[k][i], V[<<k, j>>]), P
 \* active enstatite, 0 otherwise.  C-type olivine activates both (001)[100] and (100)[001],
 \* whose Schmid tensors are transposes of each other: there R1 = 4 (1 + bi^2 + bm^2) +- 8 b2 b4
 \* can vanish near an activity tie - the replayer uses the conditioning factor 1/R1 for it.
-R1Closed(k) == LET ol == k.fab \in OlivineFabs IN
-    k.fab = "C" \/ k.R1 = IF ol /\ ~k.dead THEN <<Q(4), QZ, QZ, Q(4), QZ, Q(4)>>
-           ELSE IF ~ol /\ k.beta[4] # PZero THEN PConst(Q(4)) ELSE PZero
+R1Closed(k) == LET ol == k.fab \in OlivineFabs
+                   hasI == k.beta[k.roles[3]] = PVar(2)      \* intermediate system carries bi
+                   hasM == k.beta[k.roles[2]] = PVar(3)      \* minimum system carries bm
+               IN
+    k.fab = "C" \/ k.R1 = IF ol /\ ~k.dead
+                           THEN <<Q(4), QZ, QZ, IF hasI THEN Q(4) ELSE QZ, QZ, IF hasM THEN Q(4) ELSE QZ>>
+                           ELSE IF ~ol /\ k.beta[4] # PZero THEN PConst(Q(4)) ELSE PZero
 RolesArePermutation(k) == {k.roles[i] : i \in 1..4} = S4
 KernelLemmas(k) == /\ IsRotation(k.A) /\ RolesArePermutation(k)
                    /\ SkewU(k.A, k.U) /\ SkewV(k.A, k.V)
